@@ -261,6 +261,12 @@ def run(ctx):
                    "series": b"ok.patch\nmixed.patch\n",
                    "patches": {b"ok.patch": b"--- a/h\n+++ b/h\n@@ -1 +1 @@\n-a\n+A\n",
                                b"mixed.patch": b"--- a/blocker/old.txt\n+++ b/blocker/old.txt\n@@ -1 +1 @@\n-x\n+y\n" + fa + ga}})
+    # seeded C06-h: an earlier patch deletes the only file of a directory, the failing patch has a reject for a file in
+    # it - whether d/only.txt.rej is written depends on when emptied directories are cleaned; both drivers alike
+    corpus.append({"files": {b"d/only.txt": (b"x\n", 0o644), b"g": (b"a\nb\n", 0o644)}, "dirs": [], "applied": None,
+                   "series": b"del.patch\nfail.patch\n",
+                   "patches": {b"del.patch": b"--- a/d/only.txt\n+++ /dev/null\n@@ -1 +0,0 @@\n-x\n",
+                               b"fail.patch": b"--- a/d/only.txt\n+++ b/d/only.txt\n@@ -1 +1 @@\n-x\n+y\n--- a/g\n+++ b/g\n@@ -1,2 +1,2 @@\n a\n-nope\n+B\n"}})
     while done < n:
         if corpus:
             w = corpus.pop(0)
